@@ -83,6 +83,8 @@ func main() {
 		cmdGen(*out)
 	case "C05":
 		cmdC05(*tier, *seed, *out, *stats, *replay)
+	case "C13":
+		cmdC13(*tier, *seed, *out, *stats, *replay)
 	case "C16", "C17":
 		cmdC16(prop, *tier, *seed, *out, *stats, *replay)
 	case "C15":
